@@ -26,4 +26,28 @@ try:
         print(sid, json.dumps(results[sid]))
 finally:
     subprocess.run(["git", "-C", "/repo", "worktree", "remove", "--force", wt])
-json.dump(results, open(os.path.join(V, "out", "seeded_results.json"), "w"), indent=1)
+# cumulative record + human-readable table
+rp = os.path.join(V, "seeded", "results.json")
+allres = json.load(open(rp)) if os.path.exists(rp) else {}
+head = subprocess.run(["git", "-C", "/repo", "rev-parse", "--short", "HEAD"], stdout=subprocess.PIPE, text=True).stdout.strip()
+vhead = subprocess.run(["git", "-C", V, "rev-parse", "--short", "HEAD"], stdout=subprocess.PIPE, text=True).stdout.strip()
+for k, v in results.items():
+    if isinstance(v, dict):
+        v["repo_head"] = head; v["verif_head"] = vhead
+    allres[k] = v
+json.dump(allres, open(rp, "w"), indent=1, sort_keys=True)
+with open(os.path.join(V, "seeded", "RESULTS.md"), "w") as fh:
+    fh.write("# Seeded changes and the outcome of the property's quick check against each\n\n")
+    fh.write("(written by tools/run_seeded.py; `concrete` = the VIOLATION line came with a concrete failing input)\n\n")
+    fh.write("| seeded change | property | what it breaks | caught | concrete | first report |\n|---|---|---|---|---|---|\n")
+    for sid in sorted(allres):
+        r = allres[sid]
+        try:
+            meta = json.load(open(os.path.join(V, "seeded", sid, "meta.json")))
+        except Exception:
+            continue
+        if not isinstance(r, dict):
+            fh.write("| %s | %s | %s | %s | | |\n" % (sid, meta.get("property"), str(meta.get("title", ""))[:90], r)); continue
+        first = (r.get("first") or [""])[0].replace("|", "/").strip()[:110]
+        fh.write("| %s | %s | %s | %s | %s | %s |\n" % (sid, meta.get("property"), str(meta.get("title", "")).replace("|", "/")[:90],
+                 "yes" if r.get("caught") else ("INFRA" if r.get("exit") == 2 else "NO"), "yes" if r.get("concrete_input") else "no", first))
